@@ -443,7 +443,7 @@ def gen_cases(types, tier, seed):
                     if tier != "quick":
                         cases.append((ti, on_path(node, path, leaf, 3), "path-x3"))
         # structured random: mostly valid, boundary-biased sizes
-        n_rand = (60 if tier == "quick" else 1500)
+        n_rand = (60 if tier == "quick" else 3500)
         for _ in range(n_rand):
             cases.append((ti, rand_fields(node, r, r.choice([0.3, 0.6, 0.9, 1.0])), "random"))
         for label, v in out_of_domain(t, r):
@@ -670,7 +670,7 @@ def run(ctx):
 
     # ---- stream 2: accessory-side encodings (shuffled order), mutations, malformed input
     r = rng(seed, "c16dec")
-    n_mut = 25 if tier == "quick" else 400
+    n_mut = 25 if tier == "quick" else 1000
     for ti, t in enumerate(types):
         node = t["node"]
         for j in range(n_mut):
@@ -850,7 +850,7 @@ def gen_raw(tier, r):
                          bytes([tag ^ 1, 1, 9]), bytes([tag ^ 1]), bytes([tag, 255]) + bytes(100), b"\x00\x00" + bytes([tag, 1, 5])):
                 cases.append(body + tail)
                 cases.append(b"\x02\x01\x05" + body + tail)
-    n_rand = 1500 if tier == "quick" else 40000
+    n_rand = 1500 if tier == "quick" else 100000
     for _ in range(n_rand):
         parts = []
         for _ in range(r.choice([1, 2, 3, 5, 8])):
@@ -887,7 +887,7 @@ def stream_charvalue(types, schemas, drv, add, cov, tier, r):
         ti, t = by_cls[st]
         node = t["node"]
         is_array = bool(extra.get("array"))
-        for j in range(40 if tier == "quick" else 400):
+        for j in range(40 if tier == "quick" else 1000):
             if is_array:
                 elems = []
                 for _ in range(r.choice([1, 2, 3])):
@@ -937,7 +937,7 @@ def stream_charvalue(types, schemas, drv, add, cov, tier, r):
 def stream_database(types, add, cov, tier, r):
     by_name = {t["name"]: t for t in types}
     db_t = by_name.get("Pdu09Database")
-    n_runs = 60 if tier == "quick" else 1200
+    n_runs = 60 if tier == "quick" else 3000
     if db_t is not None and hasattr(db_t["cls"], "to_dict"):
         node = db_t["node"]
 
